@@ -11,7 +11,7 @@ TRUSTED = [
     "Coq 8.16.1 kernel; theorems closed under the global context (Section hypothesis: the bzip2 oracle returns a value or an error)",
     "extraction, driver, Rust harness with a counting global allocator (largest single request and peak live bytes per case) + scripted transport hook",
     "allocator internals and std collections' growth policy are measured, not modelled; the model records only field-driven reservations (Reserve events)",
-    "reservation theorems: valve, quake, unreal2; gamespy one/two/three and the single-game protocols are measured through the same allocator on count / index / offset mutations (no theorem yet)",
+    "reservation theorems: valve (and The Ship, Battalion 1944), quake, unreal2, gamespy one/two/three, JC2-MP, Savage 2, Mindustry, Minecraft Bedrock; FFOW, Minecraft Java / legacy and the HTTP-based Eco query are measured through the same allocator only",
 ]
 RULE = ("extreme values written into every length / count / size / index position of Spec-generated valid scripts (split headers, compressed size and CRC, player and rule counts, "
         "string terminators; a compressed reply whose valid bzip2 stream expands to 32-96 MiB behind a small announced size; GameSpy: maxplayers / numplayers / query ids as huge numbers, a huge part number inside the GameSpy 1 query id, a large index in the name of every kind of per-player variable, table row counts, field offsets; Unreal 2 announced counts; JC2M and Mindustry lengths; Eco over HTTP (real loopback web server): a Content-Length header announcing 17 MiB .. 2^64-1 bytes in front of a short body, honest length / chunked / close-delimited replies as controls; Minecraft Java packet / id / string length VarInts up to 2^31-1) plus the C01 malformed stream; the implementation's measured largest single allocation must be <= 16 MiB, peak live <= 64 MiB, and the number of "
